@@ -481,16 +481,41 @@ def bool_facts(b, op, truth, depth=0):
 def _phi_facts(b, op, truth, depth):
     if op['k'] not in ('copy', 'move') or op['place']['proj']:
         return []
-    defs = [x for x in b.assigns().get(op['place']['local'], []) if not x[4]]
-    consts = []
-    for (bb, i, kind, rv, proj) in defs:
-        if kind != 'stmt' or rv['k'] != 'use' or rv['op']['k'] != 'const' or 'int' not in rv['op']['c']:
-            return []
-        consts.append((bb, bool(rv['op']['c']['int'])))
-    match = [bb for bb, c in consts if c == truth]
-    if len(match) != 1:
+    local = op['place']['local']
+    for _ in range(8):
+        ds = b.assigns().get(local, [])
+        if len(ds) == 1 and not ds[0][4] and ds[0][2] == 'stmt' and ds[0][3]['k'] == 'use' and ds[0][3]['op']['k'] in ('copy', 'move') \
+                and not ds[0][3]['op']['place']['proj']:
+            local = ds[0][3]['op']['place']['local']
+        else:
+            break
+    defs = [x for x in b.assigns().get(local, []) if not x[4]]
+    if len(defs) != len(b.assigns().get(local, [])):
         return []
-    return dominating_facts(b, match[0], depth + 1)
+    consts, others = [], []
+    for (bb, i, kind, rv, proj) in defs:
+        if kind == 'stmt' and rv['k'] == 'use' and rv['op']['k'] == 'const' and 'int' in rv['op']['c']:
+            consts.append((bb, bool(rv['op']['c']['int'])))
+        else:
+            others.append((bb, i, kind, rv))
+    match = [bb for bb, c in consts if c == truth]
+    if not others:
+        if len(match) != 1:
+            return []
+        return dominating_facts(b, match[0], depth + 1)
+    # `a && b` (`a || b`) stored in a variable: one assignment of a computed value, the others the constant of the short cut.
+    # The variable can only have the asked-for truth value through the computed assignment when no constant equals it.
+    if len(others) == 1 and not match and len(defs) > 1:
+        bb, i, kind, rv = others[0]
+        if kind == 'stmt' and rv['k'] == 'use' and rv['op']['k'] in ('copy', 'move') and not rv['op']['place']['proj']:
+            return dominating_facts(b, bb, depth + 1) + bool_facts(b, rv['op'], truth, depth + 1)
+        if kind == 'call':
+            return dominating_facts(b, bb, depth + 1) + [('bool', ('call', bb, rv), truth)]
+        if kind == 'stmt' and rv['k'] in ('binop', 'unop'):
+            if rv['k'] == 'unop' and rv['op'] == 'Not':
+                return dominating_facts(b, bb, depth + 1) + bool_facts(b, rv['arg'], not truth, depth + 1)
+            return dominating_facts(b, bb, depth + 1) + [('bool', ('rv', bb, i, rv), truth)]
+    return []
 
 
 def dominating_facts(b, bb, depth=0, unwind=False):
@@ -502,3 +527,51 @@ def dominating_facts(b, bb, depth=0, unwind=False):
 
 def local_from_call(b, local, call_bb):
     return ('call', call_bb) in b.origins(local)
+
+
+def const_path_reach(b, start, stops, unwind=False, limit=4000):
+    """Blocks reached from `start` on paths that avoid the blocks in `stops`, pruning switch edges that contradict integer / boolean
+    constants assigned to plain locals earlier ON THE SAME PATH (a flag set in one arm and tested after the join: `let ok = ..; if ok`).
+    -> set of blocks reached (including start)."""
+    seen = set()
+    reached = set()
+    work = [(start, ())]
+    n = 0
+    while work and n < limit:
+        n += 1
+        bb, envt = work.pop()
+        if (bb, envt) in seen or bb in stops:
+            continue
+        seen.add((bb, envt))
+        reached.add(bb)
+        env = dict(envt)
+        for st in b.stmts(bb):
+            if st['k'] != 'assign':
+                continue
+            d = st['dest']
+            if d['proj']:
+                continue
+            rv = st['rv']
+            v = None
+            if rv['k'] == 'use':
+                o = rv['op']
+                if o['k'] == 'const' and 'int' in o['c']:
+                    v = o['c']['int']
+                elif o['k'] in ('copy', 'move') and not o['place']['proj']:
+                    v = env.get(o['place']['local'])
+            if v is None:
+                env.pop(d['local'], None)
+            else:
+                env[d['local']] = v
+        t = b.term(bb)
+        if t['k'] == 'call' and not t['dest']['proj']:
+            env.pop(t['dest']['local'], None)
+        succs = b.term_succs(bb, unwind)
+        if t['k'] == 'switch' and t['discr']['k'] in ('copy', 'move') and not t['discr']['place']['proj'] and t['discr']['place']['local'] in env:
+            v = env[t['discr']['place']['local']]
+            tg = [x for (val, x) in t['targets'] if val == v]
+            succs = tg[:1] if tg else [t['otherwise']]
+        e2 = tuple(sorted(env.items()))
+        for y in succs:
+            work.append((y, e2))
+    return reached
